@@ -47,6 +47,8 @@ func init() {
 		code = verifParse()
 	case "race":
 		code = verifRace()
+	case "snapseq":
+		code = verifSnapSeq()
 	default:
 		fmt.Fprintln(os.Stderr, "unknown VERIF_DRIVER mode", mode)
 		code = 2
@@ -327,5 +329,114 @@ func verifRace() int {
 	ft, _ := firstTorn.Load().(string)
 	verifOut(map[string]interface{}{"ev": "race-summary", "snapshots": snaps, "torn": torn, "blank": early, "nil": nils,
 		"test_requests": testreqs, "camera_infos": infos, "first_torn": ft})
+	return 0
+}
+
+// snapseq: one connection, frames sent one at a time (uniform value = sequence number); after
+// each frame has been processed a snapshot is requested: it must be that frame, the last one
+// completed. Every <clear every> frames the camera's 'clear' marker is sent and, once it has
+// been handled, another snapshot is requested: still the last completed frame.
+// argv: <config dir> <frames> <clear every>
+func verifSnapSeq() int {
+	args := strings.Fields(os.Getenv("VERIF_ARGS"))
+	if len(args) < 3 {
+		return 2
+	}
+	nframes, _ := strconv.Atoi(args[1])
+	clearEvery, _ := strconv.Atoi(args[2])
+	conf, err := ParseConfig(args[0])
+	if err != nil {
+		verifOut(map[string]interface{}{"ev": "config-error", "err": err.Error()})
+		return 1
+	}
+	os.Remove(conf.FrameInput)
+	listener, err := net.Listen("unix", conf.FrameInput)
+	if err != nil {
+		verifOut(map[string]interface{}{"ev": "listen-error", "err": err.Error()})
+		return 1
+	}
+	svc := &service{}
+	var checks, stale, afterClear, staleAfterClear int
+	first := ""
+	feederDone := make(chan struct{})
+	go func() {
+		defer close(feederDone)
+		conn, err := net.Dial("unix", conf.FrameInput)
+		if err != nil {
+			return
+		}
+		defer conn.Close()
+		hdr := fmt.Sprintf("ResX: 160\nResY: 120\nFrameSize: %d\nModel: lepton3\nBrand: flir\nFPS: 9\nCameraSerial: 77\nFirmware: 1.0.0\n\n", lepton3.BytesPerFrame)
+		conn.Write([]byte(hdr))
+		raw := make([]byte, lepton3.BytesPerFrame)
+		snap := func(want uint16, what string) bool {
+			f, derr := svc.TakeSnapshot(-1)
+			if derr != nil || f == nil {
+				if first == "" {
+					first = what + ": no snapshot"
+				}
+				return false
+			}
+			for y := range f.Pix {
+				for x := range f.Pix[y] {
+					if f.Pix[y][x] != want {
+						if first == "" {
+							first = fmt.Sprintf("%s: pixel (%d,%d) = %d, last completed frame has %d", what, y, x, f.Pix[y][x], want)
+						}
+						return false
+					}
+				}
+			}
+			return true
+		}
+		for i := 1; i <= nframes; i++ {
+			v := uint16(i%60000 + 1)
+			ms := uint32(60000 + i*111)
+			raw[2], raw[3], raw[4], raw[5] = byte(ms>>8), byte(ms), byte(ms>>24), byte(ms>>16)
+			raw[60], raw[61], raw[62], raw[63] = byte(1000>>8), byte(1000&0xff), 0, 0
+			for p := 640; p+1 < len(raw); p += 2 {
+				raw[p], raw[p+1] = byte(v>>8), byte(v)
+			}
+			if _, err := conn.Write(raw); err != nil {
+				return
+			}
+			// wait until the frame loop has completed frame i: the snapshot becomes frame i
+			// (nothing else tells when Process() has moved the ring on); it must do so
+			// within 2 s and must then stay frame i until the next frame is sent
+			checks++
+			deadline := time.Now().Add(2 * time.Second)
+			got := false
+			for time.Now().Before(deadline) {
+				if f, derr := svc.TakeSnapshot(-1); derr == nil && f != nil && f.Pix[60][80] == v {
+					got = true
+					break
+				}
+				time.Sleep(50 * time.Microsecond)
+			}
+			if !got || !snap(v, fmt.Sprintf("after frame %d", i)) {
+				if first == "" {
+					first = fmt.Sprintf("after frame %d: the snapshot never became that frame", i)
+				}
+				stale++
+			}
+			if clearEvery > 0 && i%clearEvery == 0 {
+				conn.Write([]byte(clearBuffer))
+				time.Sleep(3 * time.Millisecond)
+				afterClear++
+				if !snap(v, fmt.Sprintf("after frame %d and a 'clear'", i)) {
+					staleAfterClear++
+				}
+			}
+		}
+	}()
+	conn, err := listener.Accept()
+	if err != nil {
+		return 1
+	}
+	listener.Close()
+	herr := handleConn(conn, conf)
+	<-feederDone
+	verifOut(map[string]interface{}{"ev": "snapseq-summary", "checks": checks, "stale": stale, "after_clear": afterClear,
+		"stale_after_clear": staleAfterClear, "first": first, "err": fmt.Sprint(herr)})
 	return 0
 }
